@@ -154,6 +154,14 @@ func (s *ledgerSim) step(op fx.Ev) (res string, err error) {
 			return "", err
 		}
 		return s.submit(b), nil
+	case "restart":
+		nd, err := fx.OpenLedgerOnly(s.node.Name)
+		if err != nil {
+			return "fail", nil
+		}
+		nd.RootBlk = s.node.RootBlk
+		s.node = nd
+		return "ok", nil
 	case "truncate":
 		t := s.blocks[op.Int("t")]
 		if err := l.Truncate(t.Blockid); err != nil {
